@@ -20,6 +20,21 @@ CHECKS = {
             "Canonical global indexes only; gRPC services are capturing fakes behind the real clients (verif-tag constructors).", "DESIGN.md §4 C19"),
 }
 
+CHECKS.update({
+    "C04": ("exploration", "runtime monitor: differential oracle (long-lived store vs fresh store fed only the surviving blocks) over every exported query enumerated by reflection",
+            "Random histories with repeated / nested reorgs per store kind (bridge, L1 info, injected GER); after the reorg (store not reopened), after the continuation fork and after a restart every exported query method, found by reflection and called with pooled arguments (incl. dropped block numbers, roots, GERs as look-up arguments), must answer exactly like a fresh node that only saw the surviving blocks. Two destructive-delete defects are listed as known findings and reported as KNOWN-FINDING.",
+            "Proof / leaf look-up targets are roots recorded by the surviving history (rht is never pruned by design); Start, GetLastReorgEvent, GetContractDepositCount excluded by name.", "DESIGN.md §4 C04"),
+    "C07": ("fault_enumeration", "runtime monitor: statement-level fault injection through a wrapping database/sql driver + exact table-content oracle against a fault-free twin; real driver retry monitor",
+            "For each block the statements of its transaction (reads, writes, commit) are counted on a fault-free twin; each statement in turn (quick: sampled, thorough: all) fails, or the context is cancelled at that statement; after a failed call the complete table content must equal the content before the block, after the clean retry it must equal the twin's, for the whole remaining history, plus all queries incl. proofs at the end. The real sync.EVMDriver over the real processor must retry a failed block and never record a later block while it is missing. Three genuine defects were found and repaired (fix: commits).",
+            "A fault = the statement returns an error without executing; a failing commit rolls back; process death / torn writes below SQLite are covered by the kill plane when strace is available.", "DESIGN.md §4 C07"),
+    "C14": ("exploration", "runtime monitor: reflection over every exported data-query entry point while the store is halted; fingerprint oracle for 'does not advance'; differential oracle after the clearing reorg",
+            "Histories are driven into the halted state by a deposit-count gap (bridge) or an announced root / leaf-count mismatch (L1 info). While halted every exported query (reflection; arguments that returned data before the halt) must return ErrInconsistentState and no data, ProcessBlock (with and without events) must refuse and store nothing, reorgs above the tip and a reorg that fails in storage must not clear the state, a reorg that removes blocks must clear it and the store must then equal a fresh store fed the surviving blocks.",
+            "Entry point = exported method returning a value together with an error; lifecycle / configuration / collaborator methods exempt by name (listed in the evidence).", "DESIGN.md §4 C14"),
+    "C20": ("exploration", "runtime monitor: independent recursive candidate search vs the real trace-to-claim extraction over generated call trees (small shapes exhaustively)",
+            "Every ordered call-tree shape up to 4 (quick) / 5 (thorough) frames with every labelling {matching bridge call, bridge call with another index, other contract} x reverted y/n, plus PRNG trees (depth 6, both contract generations, asset/message, colliding low bits): the real setClaimCalldata must return an error and leave the claim untouched when no non-reverted bridge call carries the event's index, and otherwise record exactly the details of one such call.",
+            "Domain: every call addressed to the bridge is a claim call; traces come from a fake debug_traceTransaction.", "DESIGN.md §4 C20"),
+})
+
 # properties not (yet) claimed: reason
 NOT_APPLICABLE = {
 }
